@@ -48,4 +48,9 @@ def rrPlan (ms : Members) (noTopics : Bool) (tps : List TP) : RROut :=
     | some p => .plan p
     | none => .diverges
 
+
+/-- `consumerGroup.balance` (consumer_group.go): the `topics` map handed to the strategy has one key per topic some
+    member lists (then filled from the client's metadata) -/
+def topicsOfMembers (ms : Members) : List Topic := (ms.flatMap (·.2)).eraseDups
+
 end Model.Balance
